@@ -31,6 +31,7 @@ try:
     place = meta["demo_place"]
     place = re.sub(r"^/tmp/seed[234]?/C\d+/wt/", "", place)
     cmd = meta["demo_cmd"]
+    cmd = re.sub(r"export\s+CARGO_TARGET_DIR=\S+\s*", "", cmd)
     cmd = re.sub(r"CARGO_TARGET_DIR=\S+\s*", "", cmd)
     cmd = re.sub(r"cd\s+/tmp/seed[234]?/C\d+/wt\s*(&&|;)\s*", "", cmd)
     cmd = cmd.replace("export ;", "").strip()
